@@ -5,6 +5,6 @@ set -e
 cd "$(dirname "$0")"
 export CARGO_NET_OFFLINE=true
 python3 tools/extract.py
-(cd lean && lake build Ezpz ezpz-driver)
+(cd lean && lake build Ezpz Ezpz.Properties.Index ezpz-driver)
 (cd harness && cargo build --offline --bins)
 echo "setup done"
